@@ -149,7 +149,7 @@ func genC03(t *rapid.T) c03Case {
 // genC03Req draws the request part for a given configuration (Mode, Entries, TokenAuth).
 func genC03Req(t *rapid.T, cfg c03Case) c03Case {
 	c := c03Case{Mode: cfg.Mode, Entries: cfg.Entries, TokenAuth: cfg.TokenAuth, NoVerify: cfg.NoVerify, Kind: genKind(t)}
-	c.User = rapid.SampledFrom([]string{"", "1", "2", "4", "7", "9", "1", "al ice", "bob@example.com", "{{x}}", "1:7", "1@corp", "7@partner.example", "2@"}).Draw(t, "user")
+	c.User = rapid.SampledFrom([]string{"", "1", "2", "4", "7", "9", "1", "al ice", "bob@example.com", "{{x}}", "1:7", "1@corp", "7@partner.example", "2@", "1$1", "7${1}", "2$svc", "4$", "$9"}).Draw(t, "user")
 	// base: one of the entries as the user sees it
 	base := rapid.SampledFrom(c.Entries).Draw(t, "base")
 	host, port := "127.0.0.1", "$P"
@@ -164,7 +164,7 @@ func genC03Req(t *rapid.T, cfg c03Case) c03Case {
 		c.PortOff = 1
 	}
 	c.What = rapid.SampledFrom([]string{"exact", "exact", "exact", "port+1", "port-1", "port0", "embedded-nul", "double-nul", "no-nul", "prefix", "suffix", "superstring",
-		"other-user", "bracketed", "ipv6-variant", "surrogates", "high-byte-lookalike", "high-byte-lookalike", "name-with-port", "name-with-port", "odd-length", "over-long-size", "case", "empty"}).Draw(t, "what")
+		"other-user", "other-user", "bracketed", "ipv6-variant", "surrogates", "high-byte-lookalike", "high-byte-lookalike", "name-with-port", "name-with-port", "odd-length", "over-long-size", "case", "empty"}).Draw(t, "what")
 	name := u16(host, true)
 	switch c.What {
 	case "port+1":
@@ -214,6 +214,9 @@ func genC03Req(t *rapid.T, cfg c03Case) c03Case {
 		}
 	case "other-user":
 		other := rapid.SampledFrom([]string{"1", "2", "4", "7", "9"}).Draw(t, "otherUser")
+		if i := strings.IndexByte(c.User, '$'); i > 0 {
+			other = c.User[:i] // the user whose name is this one's up to the '$' (a careless substitution may expand "$1", "${1}", "$svc" to nothing)
+		}
 		name = u16("127.0.0."+other, true)
 	case "bracketed":
 		name = u16("["+host+"]", true)
